@@ -12,6 +12,8 @@
      printNumber/printNonNegativeFloat (non-negative integers printed as digits) -> emit (INum s)
      printExpr case ERegExp             -> emit (IRe b f)
      printExpr case EDot (non-optional, identifier name) -> emit (IDot s)
+     printExpr case EIf  -> print_items (ECond), emit IQuest / IColon
+     printExpr case EIndex (non-optional) -> print_items (EIndex), emit ILBrack / IRBrack
      js_ast.OpTable                     -> op_text / op_level / op_is_keyword (tied by the correspondence run)
 
    Abstraction: the Go printer keeps byte positions (prevOpEnd, needSpaceBeforeDot,
@@ -74,7 +76,7 @@ Definition op_is_keyword (o : op) : bool :=
   match o with UVoid | UTypeof | UDelete | BIn | BInstanceof => true | _ => false end.
 
 (* js_ast.L as a number: LLowest = 0 ... LMember = 22 *)
-Definition LLowest := 0. Definition LComma := 1. Definition LAssign := 4.
+Definition LLowest := 0. Definition LComma := 1. Definition LYield := 3. Definition LAssign := 4. Definition LConditional := 5.
 Definition LNullish := 6. Definition LLogicalOr := 7. Definition LLogicalAnd := 8.
 Definition LBitOr := 9. Definition LBitXor := 10. Definition LBitAnd := 11.
 Definition LEquals := 12. Definition LCompare := 13. Definition LShift := 14.
@@ -128,7 +130,11 @@ Inductive item :=
  | IOp (o : op)
  | IDot (s : list Z)
  | IOpen
- | IClose.
+ | IClose
+ | IQuest            (* "?" of a conditional *)
+ | IColon            (* ":" of a conditional *)
+ | ILBrack           (* "[" of an index access *)
+ | IRBrack.          (* "]" *)
 
 Inductive mark := MNone | MOp (o : op) | MNum | MRe.
 (* lastc/last2 = -1 when the buffer is shorter *)
@@ -215,6 +221,10 @@ Definition emit (mw : bool) (i : item) : act :=
       (fun st => match mk st with MNum => pr [32] st | _ => nop st end) ;; pr [46] ;; pr s
   | IOpen => pr [40]
   | IClose => pr [41]
+  | IQuest => printSpace mw ;; pr [63] ;; printSpace mw
+  | IColon => printSpace mw ;; pr [58] ;; printSpace mw
+  | ILBrack => pr [91]
+  | IRBrack => pr [93]
   end.
 
 Fixpoint render (mw : bool) (st : pst) (l : list item) : list Z :=
@@ -230,7 +240,9 @@ Inductive expr :=
  | ERe (b f : list Z)
  | EDot (e : expr) (s : list Z)
  | EUn (o : op) (e : expr)       (* prefix or postfix operator *)
- | EBin (o : op) (l r : expr).
+ | EBin (o : op) (l r : expr)
+ | ECond (c y n : expr)          (* EIf: c ? y : n *)
+ | EIndex (e i : expr).          (* EIndex (non-optional): e[i] *)
 
 Definition is_left_assoc (o : op) : bool :=
   match op_kind o with KBin => (op_level o >? LAssign) && negb (op_eqb o BPow) | _ => false end.
@@ -267,6 +279,10 @@ Fixpoint print_items (level : Z) (e : expr) : list item :=
         if op_eqb o BNullish && is_or_and r then LPrefix
         else if is_left_assoc o then lv else lv - 1 in
       paren (level >=? lv) (print_items left_level l ++ [IOp o] ++ print_items right_level r)
+  | ECond c y n =>
+      paren (level >=? LConditional)
+        (print_items LConditional c ++ [IQuest] ++ print_items LYield y ++ [IColon] ++ print_items LYield n)
+  | EIndex t i => print_items LPostfix t ++ [ILBrack] ++ print_items LLowest i ++ [IRBrack]
   end.
 
 Definition print_expr (mw : bool) (e : expr) : list Z := render mw st0 (print_items LLowest e).
